@@ -132,6 +132,58 @@ class Handler(object):
         return 0
 
 
+class RedrawHandler(object):
+    """A handler that redraws: a section of each output is written and overwritten (what progress displays do).  Whether the
+    overwrite moves the cursor is decided by what the outputs say about ANSI support - under the no-ANSI switch nothing may."""
+
+    def handle(self, args, io, command):
+        RECORDS.append({"cmd": command.full_name, "args": args.arguments(False)})
+        sec = io.section()
+        sec.write_line("s1")
+        sec.output.overwrite("s2")
+        sec.error_line("t1")
+        sec.error_output.overwrite("t2")
+        return 0
+
+
+def redraw_cases():
+    """command `redraw [items...]` x ANSI switches (alone, with another switch on either side, behind '--') x pipe-like / terminal-like streams"""
+    sets = [[], ["--no-ansi"], ["--ansi"], ["-v", "--no-ansi"], ["--no-ansi", "-n"], ["x", "--no-ansi"], ["--no-ansi", "x"],
+            ["--", "--no-ansi"], ["--ansi", "--", "--no-ansi"], ["--no-ansi", "--", "--ansi"]]
+    for sw in sets:
+        for tty in (False, True):
+            for sa in (False, True):
+                yield {"redraw": True, "tokens": ["redraw"] + sw, "tty": tty, "string_args": sa}
+
+
+def judge_redraw(case):
+    from mc.term import Term
+    toks = case["tokens"]
+    obs = execute(toks, "ok", case["string_args"], case["tty"])
+    head = toks[:toks.index("--")] if "--" in toks else toks
+    noansi, ansi = "--no-ansi" in head, "--ansi" in head
+    bad = []
+    if obs["status"] != 0 or len(obs["recs"]) != 1:
+        return [("redraw:run", "the redrawing handler did not run exactly once with status 0", [0, 1], [obs["status"], len(obs["recs"])])]
+    for name, text, first, second in (("stdout", obs["out"], "s1", "s2"), ("stderr", obs["err"], "t1", "t2")):
+        if noansi and not ansi:
+            if "\x1b" in text:
+                bad.append(("noansi:escape:redraw:" + name, "no-ANSI switch before '--': a handler that redraws a section emitted an "
+                            "escape sequence on %s" % name, "%s\n%s\n" % (first, second), text))
+            elif text != "%s\n%s\n" % (first, second):
+                bad.append(("noansi:text:redraw:" + name, "no-ANSI switch: redrawn section text on %s" % name, "%s\n%s\n" % (first, second), text))
+        else:
+            t = Term(80)
+            try:
+                t.feed(text)
+                rows = t.screen()
+            except Exception as e:  # noqa
+                rows = ["<unsupported: %s>" % e]
+            if not rows or rows[-1] != second:
+                bad.append(("redraw:screen:" + name, "the last row %s shows after the redraw is not the overwriting text" % name, second, rows[-3:]))
+    return bad
+
+
 def build_app(raises):
     from clikit.api.args.format import Argument
     from clikit.config.default_application_config import DefaultApplicationConfig
@@ -156,6 +208,10 @@ def build_app(raises):
         c.set_description("command with a multi-valued argument")
         c.add_argument("items", Argument.MULTI_VALUED, "values")
         c.set_handler(Handler(raises))
+    with config.command("redraw") as c:
+        c.set_description("command whose handler overwrites a section")
+        c.add_argument("items", Argument.MULTI_VALUED, "values")
+        c.set_handler(RedrawHandler())
     with config.command("sw") as c:
         c.set_description("command with sub-commands named like the switches")
         c.add_argument("items", Argument.MULTI_VALUED, "values")
@@ -553,6 +609,9 @@ def replay(case):
         except RuntimeError as e:
             return report.viol("baseline:reference-run-broken", str(e), case)
         return None
+    if case.get("redraw"):
+        r = judge_redraw(case)
+        return report.viol(r[0][0], r[0][1], case, r[0][2], r[0][3]) if r else None
     vs, info = run_case(case)
     if info["tokens"] != case.get("tokens", info["tokens"]):
         raise RuntimeError("engine error: replay rebuilt a different line")
@@ -601,6 +660,15 @@ def main():
     for rank, vi in sorted(allv, key=lambda rv: rv[0]):
         rep.violation(vi)
 
+    nred = 0
+    for c in redraw_cases():
+        nred += 1
+        for sig, what, exp, got in judge_redraw(c):
+            rep.violation(report.viol(sig, what + " | line %r, %s streams" % (" ".join(c["tokens"]), "terminal-like" if c["tty"] else "pipe-like"), c, exp, got))
+    rep.part("redrawing-handler", cases=nred, what="a handler that writes and overwrites a section of each output x ANSI switch placements x "
+             "pipe-like / terminal-like streams x argv / string form: no escape sequence at all under the no-ANSI switch, the overwriting text "
+             "last on screen otherwise")
+    evals += nred
     rep.set("evaluations", evals)
     rep.set("distinct_nontrivial", len(keys))
     rep.set("skipped_v_before_positional", counters.pop("skipped_v_before_positional", 0))
